@@ -390,9 +390,23 @@ pub enum Strategy {
     RoundRobin,
     Pct,
     NewestStarved,
+    /// one early worker (the victim) runs until its k-th yield point and is then starved: it runs again only when
+    /// nothing else can; the spawner runs only when no other worker can.  Produces runs in which a parked worker
+    /// holds an early chunk while workers spawned after the lag period (with grown chunk sizes) overtake it.
+    StarveOne,
+    /// directed schedule for the runner's chunk growth: the spawner runs until the first lag period is over (four
+    /// workers exist, none has pulled), then the workers run - one of them (the victim) is parked inside a closure
+    /// holding an early element - until m steps are done, then the spawner decides again (workers spawned now get
+    /// grown chunks with Min/Auto), then the newest workers run to completion, the victim last
+    LagGrow,
+    /// follow `Case::script` (indices into the ordered list of runnable threads), then never preempt:
+    /// used by the bounded-exhaustive schedule exploration
+    Script,
 }
 
-pub const ALL_STRATEGIES: [Strategy; 9] = [
+pub const ALL_STRATEGIES: [Strategy; 11] = [
+    Strategy::LagGrow,
+    Strategy::StarveOne,
     Strategy::Uniform,
     Strategy::Sticky,
     Strategy::SpawnerFirst,
@@ -454,6 +468,8 @@ pub struct Case {
     pub mode: Mode,
     pub strategy: Strategy,
     pub sched_seed: u64,
+    /// scripted scheduler decisions (Strategy::Script)
+    pub script: Vec<u8>,
     pub faults: Vec<Fault>,
     /// endless source (Probe only) with an element budget
     pub endless: bool,
@@ -463,6 +479,9 @@ pub struct Case {
     pub val_seed: u64,
     /// spin inside Probe::next to widen the re-entrancy window (mode F)
     pub probe_spin: u32,
+    /// occasional sleep (microseconds, upper bound) inside Probe::next in mode F: a thread that holds the source's
+    /// hand-over handle is slow, others have reserved positions and wait
+    pub probe_sleep_us: u32,
 }
 
 impl Case {
